@@ -267,7 +267,13 @@ func checkC11(c *Ctx, w *World) {
 			selfCalls = append(selfCalls, call)
 		}
 	})
-	for i, r := range returnsOf(kfm) {
+	for i, vr := range cs.VirtualReturns() {
+		// (merged single-exit code is split per incoming edge: each virtual return has concrete result values)
+		r := struct {
+			Results []ssa.Value
+			*ssa.Return
+		}{vr.Vals, vr.Ret}
+		vrCond := vr.Cond
 		construct := fmt.Sprintf("keysFromMessage return#%d", i+1)
 		errNil, _ := allOrigins(r.Results[1], isConstNilOrigin)
 		resNil, _ := allOrigins(r.Results[0], isConstNilOrigin)
@@ -281,14 +287,14 @@ func checkC11(c *Ctx, w *World) {
 						if ia, ok := ref.(*ssa.IndexAddr); ok {
 							for _, st := range storesTo(ia) {
 								if sc, ok := staticCallNamed(st.Val, "reflect.(Value).String"); ok {
-									imp, _ := cs.Implies(cs.Reach(r), cs.And(cs.Atom("atEnd"), strKind(sc.Call.Args[0])))
+									imp, _ := cs.Implies(vrCond, cs.And(cs.Atom("atEnd"), strKind(sc.Call.Args[0])))
 									good = imp
 								}
 							}
 						}
 					}
 				}
-				c.check(good, "C11.errors", construct, p.ipos(r), "a key is produced only as String() of a String-kind value reached at the end of the path", "a key can be produced from a non-string value or before the end of the path")
+				c.check(good, "C11.errors", construct, p.ipos(r.Return), "a key is produced only as String() of a String-kind value reached at the end of the path", "a key can be produced from a non-string value or before the end of the path")
 			} else {
 				ok2, bad := allOrigins(r.Results[0], func(o Origin) bool {
 					if o.Kind == "slice" {
@@ -299,7 +305,7 @@ func checkC11(c *Ctx, w *World) {
 					}
 					return false
 				})
-				c.check(ok2, "C11.errors", construct, p.ipos(r), "success returns the ordered accumulation of the recursive results", "success returns something other than the accumulated keys: "+bad)
+				c.check(ok2, "C11.errors", construct, p.ipos(r.Return), "success returns the ordered accumulation of the recursive results", "success returns something other than the accumulated keys: "+bad)
 			}
 		case resNil:
 			// error return with no keys: must be a kind failure (end & not string, or middle & not struct)
@@ -308,11 +314,11 @@ func checkC11(c *Ctx, w *World) {
 				_ = name
 			}
 			eachInstr(kfm, func(in ssa.Instruction) {
-				if call, ok := staticCallNamed(valueOf(in), "reflect.(Value).Kind"); ok && subj == nil && call.Block().Dominates(r.Block()) {
+				if call, ok := staticCallNamed(valueOf(in), "reflect.(Value).Kind"); ok && subj == nil && call.Block().Dominates(r.Return.Block()) {
 					subj = call.Call.Args[0]
 				}
 			})
-			endBad, _ := cs.Implies(cs.Reach(r), cs.Atom("atEnd"))
+			endBad, _ := cs.Implies(vrCond, cs.Atom("atEnd"))
 			good := false
 			// the tested value is the (possibly dereferenced) current value: find which
 			for v := range byVal {
@@ -322,16 +328,16 @@ func checkC11(c *Ctx, w *World) {
 				for _, in := range fnv.Instrs {
 					if ph, ok := in.(*ssa.Phi); ok && ph.Comment == "val" {
 						if endBad {
-							imp, _ := cs.Implies(cs.Reach(r), cs.Not(strKind(ph)))
+							imp, _ := cs.Implies(vrCond, cs.Not(strKind(ph)))
 							good = good || imp
 						} else {
-							imp, _ := cs.Implies(cs.Reach(r), cs.And(cs.Not(cs.Atom("atEnd")), cs.Not(structKind(ph))))
+							imp, _ := cs.Implies(vrCond, cs.And(cs.Not(cs.Atom("atEnd")), cs.Not(structKind(ph))))
 							good = good || imp
 						}
 					}
 				}
 			}
-			c.check(good, "C11.errors", construct, p.ipos(r), "a non-nil error is returned exactly on a kind failure (end of path and not a string, or inside the path and not a struct)", "an error return is not tied to the kind failure it reports")
+			c.check(good, "C11.errors", construct, p.ipos(r.Return), "a non-nil error is returned exactly on a kind failure (end of path and not a string, or inside the path and not a struct)", "an error return is not tied to the kind failure it reports")
 		default:
 			// propagates a recursive result
 			okP := false
@@ -340,7 +346,7 @@ func checkC11(c *Ctx, w *World) {
 					okP = true
 				}
 			}
-			c.check(okP, "C11.errors", construct, p.ipos(r), "propagates the recursive call's error (with the keys gathered so far)", "returns an error that is not the recursive call's")
+			c.check(okP, "C11.errors", construct, p.ipos(r.Return), "propagates the recursive call's error (with the keys gathered so far)", "returns an error that is not the recursive call's")
 		}
 	}
 
@@ -438,9 +444,9 @@ func checkC11(c *Ctx, w *World) {
 			}
 			ecs := newCondSpace(kfm, recOf(eqAtom("recErrNil", func(v ssa.Value) bool { return isExtractOf(stripConv(v), sc, 1) }, isNil)), "recErrNil")
 			prop := ecs.False()
-			for _, r := range returnsOf(kfm) {
-				if isExtractOf(r.Results[1], sc, 1) {
-					prop = or(prop, ecs.Reach(r))
+			for _, vr := range ecs.VirtualReturns() {
+				if isExtractOf(vr.Vals[1], sc, 1) {
+					prop = or(prop, vr.Cond)
 				}
 			}
 			// the block following the call (same block) is reached; error ⇒ propagated
